@@ -103,8 +103,9 @@ fn script(t: &mut Tape, k: usize) -> Vec<usize> {
 }
 
 /// Drain an iterator under the step bound, then call `next()` `extra` more times.
-fn drain<I: Iterator>(o: &mut Obs, name: &'static str, mut it: I, extra: usize, mut f: impl FnMut(&mut Obs, I::Item) -> u64) -> (usize, u64) {
+fn drain<I: Iterator>(o: &mut Obs, name: &'static str, mk: impl FnOnce() -> I, extra: usize, mut f: impl FnMut(&mut Obs, I::Item) -> u64) -> (usize, u64) {
     o.op(name);
+    let mut it = mk();
     let bound = o.iter_bound;
     let (mut n, mut h) = (0usize, FNV_INIT);
     loop {
@@ -143,7 +144,8 @@ fn drain<I: Iterator>(o: &mut Obs, name: &'static str, mut it: I, extra: usize, 
 /// Two iterators over the same view advanced in a tape-chosen interleaving must both
 /// produce the sequence a fresh iterator produces.
 fn interleaved<I: Iterator>(o: &mut Obs, name: &'static str, t: &mut Tape, mk: impl Fn() -> I, val: impl Fn(I::Item) -> u64) {
-    let (_, h0) = drain(o, name, mk(), t.choose(4), |_, x| val(x));
+    let extra0 = t.choose(4);
+    let (_, h0) = drain(o, name, || mk(), extra0, |_, x| val(x));
     if t.choose(2) == 0 {
         return;
     }
@@ -375,7 +377,7 @@ pub fn ex_rr(p: &ReceiverReport<'_>, t: &mut Tape, o: &mut Obs) {
             }
             9 => {
                 let extra = t.choose(4);
-                drain(o, "Rr::report_blocks", p.report_blocks(), extra, |o, rb| ex_report_block(&rb, t, o));
+                drain(o, "Rr::report_blocks", || p.report_blocks(), extra, |o, rb| ex_report_block(&rb, t, o));
             }
             10 => {
                 o.op("Rr::clone_eq");
@@ -416,7 +418,7 @@ pub fn ex_sr(p: &SenderReport<'_>, t: &mut Tape, o: &mut Obs) {
             }
             9 => {
                 let extra = t.choose(4);
-                drain(o, "Sr::report_blocks", p.report_blocks(), extra, |o, rb| ex_report_block(&rb, t, o));
+                drain(o, "Sr::report_blocks", || p.report_blocks(), extra, |o, rb| ex_report_block(&rb, t, o));
             }
             10 => {
                 o.op("Sr::ntp_timestamp");
@@ -523,7 +525,7 @@ fn ex_chunk(c: &SdesChunk<'_>, t: &mut Tape, o: &mut Obs) -> u64 {
             }
             2 => {
                 let extra = t.choose(3);
-                let (_, hh) = drain(o, "SdesChunk::items", c.items(), extra, |o, i| ex_item(i, t, o));
+                let (_, hh) = drain(o, "SdesChunk::items", || c.items(), extra, |o, i| ex_item(i, t, o));
                 h ^= hh
             }
             3 => {
@@ -551,7 +553,7 @@ pub fn ex_sdes(p: &Sdes<'_>, t: &mut Tape, o: &mut Obs) {
             }
             7 => {
                 let extra = t.choose(3);
-                let (n, _) = drain(o, "Sdes::chunks", p.chunks(), extra, |o, c| ex_chunk(c, t, o));
+                let (n, _) = drain(o, "Sdes::chunks", || p.chunks(), extra, |o, c| ex_chunk(c, t, o));
                 if n >= 3 {
                     o.probes[4] += 1;
                 }
@@ -997,7 +999,7 @@ pub fn run_compound(d: &[u8], t: &mut Tape, o: &mut Obs) {
     let tl = tiles(d);
     let mut idx = 0usize;
     let mut later_fail = false;
-    drain(o, "Compound::next", c, extra, |o, item| {
+    drain(o, "Compound::next", || c, extra, |o, item| {
         let k = idx;
         idx += 1;
         match item {
